@@ -87,6 +87,16 @@ func (q *rtmp2MpegtsFilter) Push(msg base.RtmpMsg) {
 	}
 }
 
+// Flush
+//
+// 输入流结束时调用。如果探测还没有结束，用已经探测到的信息生成PatPmt，并将缓存的数据吐出来
+func (q *rtmp2MpegtsFilter) Flush() {
+	if q.done || len(q.data) == 0 {
+		return
+	}
+	q.drain()
+}
+
 // ---------------------------------------------------------------------------------------------------------------------
 
 func (q *rtmp2MpegtsFilter) drain() {
